@@ -43,7 +43,8 @@ THEOREMS = ["ElfioVerif.C08.get_total", "ElfioVerif.C08.get_total_wf", "ElfioVer
 SITES = ["str_get_", "str_add_", "sec32_insert", "sec64_insert"]
 RULE = ("tables created empty / created by set_data with exact allocation / loaded eagerly or lazily from a "
         "saved file (well-formed, unterminated last string, no leading NUL, empty, all-NUL), x{ELF32,ELF64}x{LSB,MSB}; "
-        "0-40 additions (empty, repeated, high bytes, embedded NUL, 200-600 byte strings, const char* / std::string / "
+        "0-40 additions (empty, repeated, repeated through the pointer get_string returned - the source aliases the section's own "
+        "buffer -, high bytes, embedded NUL, 200-600 byte strings, const char* / std::string / "
         "nullptr), every returned index re-queried immediately, after later additions and after save+reload (lazy and "
         "eager); lookups at 0, size-1, size, size+1, 2^32-1, 2^31, every index of small tables, random indices; "
         "tables > 64 KiB; NOBITS sections with a size and no data (null data => null); thorough adds all sequences of <=4 additions (quick: <=2) over a 5-string alphabet on 5 setups with every index queried "
@@ -132,14 +133,22 @@ def gen_random(rng, i):
     nadds = rng.choice([0, 0, 1, 2, 3, 5, 8, 13, 21, 40]) if rng.random() < 0.7 else rng.randint(0, 40)
     if rng.random() < 0.5: lines += boundary_gets(rng, len(content), few=True)
     pool = []; n = 0
+    pool_of = {}; reals = []       # addition number -> string, for the additions that stored a string
     for _ in range(nadds):
         r = rng.random()
         if r < 0.03:
             lines.append("addnull")
+        elif r < 0.17 and ty != 8 and reals:
+            # repeat a string that is already in the table, passing the pointer get_string returned:
+            # the source of the append lies in the section's own buffer (which the append may reallocate)
+            k = rng.choice(reals); s = pool_of[k]; pool.append(s); pool_of[n] = s; reals.append(n)
+            lines.append(f"addselfr {k}")
+            content, _ = ref_add(content, s)
         else:
             s = rand_string(rng, pool); pool.append(s)
             lines.append(("adds " if r < 0.3 else "add ") + hx(s))
             if ty != 8: content, _ = ref_add(content, s)
+            pool_of[n] = s; reals.append(n)
         n += 1
         if rng.random() < 0.6: lines.append(f"getr {n - 1}")
         if rng.random() < 0.3: lines.append(f"getr {rng.randrange(n)}")
@@ -243,6 +252,12 @@ def oracle(case, out):
         elif op in ("add", "adds"):
             cs = unhx(t[1]).split(b"\0")[0]
             added.append((cs, int(f["idx"]) if "idx" in f else None)); known = None; real_adds += 1
+            phase = "immediate"
+        elif op == "addselfr":
+            k = int(t[1])
+            cs = added[k][0] if k < len(added) else None
+            added.append((cs, int(f["idx"]) if "idx" in f else None)); known = None
+            if cs is not None: real_adds += 1
             phase = "immediate"
         elif op == "addnull":
             added.append((None, int(f["idx"]) if "idx" in f else None))
